@@ -94,3 +94,13 @@ Theorem C18_rk23_nstep_bounds_naccpt :
     (naccpt (Rk23.r_stats r) <= nstep (Rk23.r_stats r))%N.
 Proof. intros; eapply Rk23AccSteps.loop_le; eauto. Qed.
 Print Assumptions C18_rk23_nstep_bounds_naccpt.
+
+Require IVP.proofs.Dop853AccSteps.
+Theorem C18_dop853_nstep_bounds_naccpt :
+  forall (F : Type) (O : Ops F) (H : Type) (P : Dop853.params) f xend posneg hmax
+         (cb : H -> F -> F -> list F -> option (list F * F * F) -> H * flag F * list F) kern fuel s r,
+    (naccpt (Dop853.s_stats s) <= nstep (Dop853.s_stats s))%N ->
+    Dop853.loop O P f xend posneg hmax cb kern fuel s = Some r ->
+    (naccpt (Dop853.r_stats r) <= nstep (Dop853.r_stats r))%N.
+Proof. intros; eapply Dop853AccSteps.loop_le; eauto. Qed.
+Print Assumptions C18_dop853_nstep_bounds_naccpt.
